@@ -30,25 +30,34 @@ def sorted_levels(values):
 
 
 def _ind(col, level):
-    return lambda row: 1.0 if row[col] == level else 0.0
+    return lambda row: 1 if row[col] == level else 0
+
+
+def _exact(v):
+    """integers stay Python ints (exact at any magnitude: 2**53 + 1 must not become 2**53); the rest is float"""
+    if isinstance(v, bool):
+        return int(v)
+    if isinstance(v, int):
+        return v
+    return float(v)
 
 
 def _num(col):
-    return lambda row: float(row[col])
+    return lambda row: _exact(row[col])
 
 
 def _const(v):
-    return lambda row: float(v)
+    return lambda row: _exact(v)
 
 
 def _sum_col(col, level, last):
     def f(row):
         v = row[col]
         if v == level:
-            return 1.0
+            return 1
         if v == last:
-            return -1.0
-        return 0.0
+            return -1
+        return 0
     return f
 
 
@@ -92,7 +101,7 @@ class Factor:
         return cat_columns(self.name, self.col, self.levels, reduced, self.coding, self.level_names)
 
 
-def design(shape, f1, f2=None, full_rank=True):
+def design(shape, f1, f2=None, full_rank=True, intercept=True):
     """Columns of `1 + <shape>` where shape is one of
          'f1'        single main effect
          'f1+f2'     two main effects in that order (both of degree one: order of appearance)
@@ -100,12 +109,20 @@ def design(shape, f1, f2=None, full_rank=True):
     following the documented rank rule: with ensure_full_rank a categorical factor is reduced exactly when what
     it would span in full is already spanned by earlier columns.
     """
-    cols = [INTERCEPT]
+    cols = [INTERCEPT] if intercept else []
+    if not intercept and shape != "f1+f2":
+        raise Unmodelled("no-intercept " + shape)
     if shape == "f1":
         cols += f1.cols(reduced=full_rank and f1.kind == "cat")
     elif shape == "f1+f2":
-        cols += f1.cols(reduced=full_rank and f1.kind == "cat")
-        cols += f2.cols(reduced=full_rank and f2.kind == "cat")
+        # a categorical main effect is reduced exactly when the constant is already spanned: by the intercept or
+        # by an earlier categorical main effect that is coded in full
+        spanned = intercept
+        for f in (f1, f2):
+            reduced = full_rank and f.kind == "cat" and spanned
+            cols += f.cols(reduced=reduced)
+            if f.kind == "cat":
+                spanned = True
     elif shape == "f1:f2":
         if f1.kind == "cat" and f2.kind == "cat":
             if full_rank:
@@ -154,5 +171,9 @@ def selftest():
     y = Factor("B", "B", "cat", ["p", "q"])
     names, _ = evaluate(design("f1:f2", x, y), [])
     assert names == ["Intercept", "B[T.q]", "A[T.y]:B[p]", "A[T.z]:B[p]", "A[T.y]:B[q]", "A[T.z]:B[q]"], names
+    names, m = evaluate(design("f1+f2", b, a, intercept=False), rows)  # '0 + b + a': b coded in full
+    assert names == ["b[A]", "b[B]", "b[C]", "a"] and m[2] == [0, 0, 1, 3], (names, m)
+    names, m = evaluate(design("f1", Factor("n", "n", "num")), [{"n": 2 ** 53 + 1}])
+    assert m == [[1, 2 ** 53 + 1]] and m[0][1] != float(2 ** 53 + 1)
     names, _ = evaluate(design("f1:f2", x, y, full_rank=False), [])
     assert names == ["Intercept", "A[x]:B[p]", "A[y]:B[p]", "A[z]:B[p]", "A[x]:B[q]", "A[y]:B[q]", "A[z]:B[q]"], names
